@@ -28,6 +28,11 @@ EXTRA = {"C01-2": ["C07"], "C04-1": ["C07"], "C06-2": ["C07"], "C03-b1": ["C07"]
          "C13-v1": ["C08"], "C13-v2": ["C07"], "C15-v1": ["C14"], "C15-v2": ["C07", "C16"], "C17-v2": ["C13"], "C18-v1": ["C03", "C15"],
          "C18-v2": ["C13"], "C19-v1": ["C06"], "C19-v2": ["C13"], "C20-v2": ["C12"], "C10-v1": ["C09", "C13"], "C10-v2": ["C09", "C13"],
          "C16-v1": ["C07"], "C16-v2": ["C07"],
+         "C01-x1": ["C11", "C02"], "C01-x2": ["C05"], "C02-x1": ["C01", "C09"], "C02-x2": ["C06", "C19"], "C03-x1": ["C05"], "C04-x1": ["C05"],
+         "C04-x2": ["C13", "C05"], "C05-x2": ["C13"], "C07-x1": ["C13"], "C07-x2": ["C16"], "C08-x2": ["C13"], "C09-x1": ["C01", "C02"],
+         "C09-x2": ["C13"], "C10-x1": ["C09"], "C10-x2": ["C05"], "C11-x1": ["C01"], "C11-x2": ["C13"], "C12-x2": ["C07"], "C13-x1": ["C08"],
+         "C13-x2": ["C08"], "C15-x1": ["C14"], "C15-x2": ["C14"], "C16-x2": ["C07"], "C17-x2": ["C13"], "C18-x2": ["C13"], "C19-x1": ["C06"],
+         "C19-x2": ["C06", "C05"], "C06-x1": ["C18"], "C06-x2": ["C09"], "C14-x2": ["C13"],
          "C01-w2": ["C07", "C02"], "C02-w1": ["C01"], "C03-w1": ["C05"], "C03-w2": ["C07", "C12"], "C04-w1": ["C13"], "C04-w2": ["C07"],
          "C05-w1": ["C04"], "C05-w2": ["C13", "C01"], "C06-w2": ["C19"], "C07-w1": ["C02", "C09"], "C07-w2": ["C16"], "C08-w1": ["C17"],
          "C08-w2": ["C12"], "C09-w1": ["C07", "C02"], "C09-w2": ["C12", "C10"], "C10-w1": ["C13"], "C10-w2": ["C13"], "C11-w1": ["C04"],
